@@ -216,3 +216,21 @@ Theorem product_sites_present :
   /\ length (filter product_site dense_sites) = 3%nat.
 Proof. exact product_sites_present_proof. Qed.
 Print Assumptions product_sites_present.
+
+(* every name the anchored files write in place is bound to a private array (fresh allocation / copy), a Python
+   list, an output buffer every caller allocates, or the public out= argument — generated and reviewed tables are
+   equal as sets; in particular flip, roll, _sort_coo and _arg_minmax_common do their coordinate arithmetic on copies *)
+Theorem inplace_writes_private : writes_reviewedb = true.
+Proof. exact inplace_writes_private_proof. Qed.
+Print Assumptions inplace_writes_private.
+
+Theorem coordinate_arithmetic_on_copies :
+  forallb (fun r => existsb (fun s => write_matches s r) inplace_sites)
+    [mkRW "_coo/common.py" "flip" "new_coords" "x.coords.copy()" WFresh;
+     mkRW "_coo/common.py" "roll" "coords" "np.copy(a.coords)" WFresh;
+     mkRW "_coo/common.py" "_sort_coo" "data" "data.copy()" WFresh;
+     mkRW "_coo/common.py" "_sort_coo" "result_indices" "np.empty_like(sort_coords)" WFresh;
+     mkRW "_coo/common.py" "_arg_minmax_common" "<argument 0 of _compute_minmax_args>" "x.coords.copy()" WFresh;
+     mkRW "_coo/common.py" "_arg_minmax_common" "<argument 1 of _compute_minmax_args>" "x.data.copy()" WFresh] = true.
+Proof. exact coordinate_arithmetic_on_copies_proof. Qed.
+Print Assumptions coordinate_arithmetic_on_copies.
